@@ -92,10 +92,14 @@ func (m *Dense) Solve(a, b Matrix) error {
 // If A does not have full rank, a Condition error is returned. See the
 // documentation for Condition for more information.
 func (v *VecDense) SolveVec(a Matrix, b Vector) error {
-	if _, bc := b.Dims(); bc != 1 {
+	br, bc := b.Dims()
+	if bc != 1 {
 		panic(ErrShape)
 	}
-	_, c := a.Dims()
+	r, c := a.Dims()
+	if r != br {
+		panic(ErrShape)
+	}
 
 	// The Solve implementation is non-trivial, so rather than duplicate the code,
 	// instead recast the VecDenses as Dense and call the matrix code.
